@@ -603,20 +603,22 @@ def sdl_type(t, rng, ext=False):
     kw = "extend " if ext else ""
     d = "" if ext else sdl_desc(t["desc"], rng)
     k = t["kind"]
+    ap = t.get("applied", "") if ext else ""
     if k == "scalar":
-        return d + kw + f"scalar {t['name']}" + (f" @specifiedBy(url: {q(t['spec'])})" if t["spec"] is not None else "")
+        spec = f" @specifiedBy(url: {q(t['spec'])})" if t["spec"] is not None else ""
+        return d + kw + f"scalar {t['name']}" + (ap + spec if ext and len(ap) % 2 else spec + ap)
     if k in ("object", "interface"):
         kwd = "type" if k == "object" else "interface"
         impl = (" implements " + " & ".join(t["interfaces"])) if t["interfaces"] else ""
-        return d + kw + f"{kwd} {t['name']}{impl}" + (sdl_fields(t["fields"], rng) if t["fields"] else "")
+        return d + kw + f"{kwd} {t['name']}{impl}{ap}" + (sdl_fields(t["fields"], rng) if t["fields"] else "")
     if k == "union":
-        return d + kw + f"union {t['name']}" + ((" = " + " | ".join(t["members"])) if t["members"] else "")
+        return d + kw + f"union {t['name']}{ap}" + ((" = " + " | ".join(t["members"])) if t["members"] else "")
     if k == "enum":
         vals = [sdl_desc(v["desc"], rng, "  ") + f"  {v['name']}{sdl_depr(v['depr'], rng)}" for v in t["values"]]
-        return d + kw + f"enum {t['name']}" + ((" {\n" + "\n".join(vals) + "\n}") if vals else "")
+        return d + kw + f"enum {t['name']}{ap}" + ((" {\n" + "\n".join(vals) + "\n}") if vals else "")
     if k == "input":
         fs = [sdl_arg(a, rng, "  ") for a in t["fields"]]
-        return d + kw + f"input {t['name']}" + (" @oneOf" if t.get("oneof") else "") + ((" {\n" + "\n".join(fs) + "\n}") if fs else "")
+        return d + kw + f"input {t['name']}" + (" @oneOf" if t.get("oneof") else "") + ap + ((" {\n" + "\n".join(fs) + "\n}") if fs else "")
     raise AssertionError(k)
 
 
@@ -1207,6 +1209,91 @@ def gen_extension(rng, ir, explicit_schema_block):
         return f
 
     # names of interface fields anywhere (new plain fields must not collide with them in implementers)
+    def content_ext(t):
+        """One extension of type `t` that adds content (updates `comb`); None if nothing applies."""
+        k = t["kind"]
+        frag = {"kind": k, "name": t["name"], "desc": None}
+        if k == "scalar":
+            if t["spec"] is None:
+                t["spec"] = rng.choice(["https://example.com/x", "u"])
+                frag["spec"] = t["spec"]
+            else:
+                return None
+        elif k == "enum":
+            have = {v["name"] for v in t["values"]}
+            vs = [{"name": v, "desc": adv(rng, 0.7), "depr": adv_depr(rng)} for v in g.member_names(["X", "NEW"], rng.randint(1, 2)) if v not in have]
+            if not vs:
+                return None
+            t["values"] += vs
+            frag["values"] = copy.deepcopy(vs)
+        elif k == "input":
+            have = {a["name"] for a in t["fields"]}
+            fs = []
+            for a in g.member_names(["nx", "added"], rng.randint(1, 2)):
+                if a in have:
+                    continue
+                f = g.arg(a, [x for x in input_names() if x != t["name"]], allow_required=not t["oneof"])
+                f.pop("py", None)
+                if t["oneof"]:
+                    f["default"] = None
+                elif f["type"][0] == "nn" and f["default"] is None:
+                    f["type"] = f["type"][1]  # keep old literals of this type valid
+                fs.append(f)
+            if not fs:
+                return None
+            t["fields"] += fs
+            frag["oneof"] = False
+            frag["fields"] = copy.deepcopy(fs)
+        elif k == "union":
+            objs = [x["name"] for x in comb["types"] if x["kind"] == "object" and x["name"] not in t["members"]]
+            if not objs:
+                return None
+            ms = rng.sample(objs, rng.randint(1, min(2, len(objs))))
+            t["members"] += ms
+            frag["members"] = ms
+        else:
+            # object / interface: new fields and/or new interfaces (with the fields they require)
+            have = {f["name"] for f in t["fields"]}
+            fs = []
+            new_ifaces = []
+            if rng.random() < 0.4:
+                ifs = [x["name"] for x in comb["types"] if x["kind"] == "interface" and x["name"] != t["name"] and x["name"] not in t["interfaces"]]
+                # an interface may only implement interfaces that do not (transitively) implement it
+                ifs = [i for i in ifs if t["name"] not in iface_closure(tmap, [i])]
+                # implementers of an interface would have to follow: only extend objects, or interfaces nobody implements
+                implemented = any(t["name"] in x.get("interfaces", []) for x in comb["types"])
+                if ifs and not (k == "interface" and implemented):
+                    want = iface_closure(tmap, [rng.choice(ifs)])
+                    new_ifaces = [i for i in want if i not in t["interfaces"]]
+                    ok = True
+                    for i in new_ifaces:
+                        for f in tmap[i]["fields"]:
+                            if f["name"] in have:
+                                ok = False  # an existing field may not satisfy the interface
+                            elif f["name"] not in {x["name"] for x in fs}:
+                                fs.append(copy.deepcopy(f))
+                            else:
+                                # two new interfaces with the same field: keep the later (more derived) one
+                                fs = [x for x in fs if x["name"] != f["name"]] + [copy.deepcopy(f)]
+                    if not ok:
+                        new_ifaces, fs = [], []
+                    else:
+                        # a field required by several interfaces: take the most derived version
+                        pass
+            implemented = k == "interface" and any(t["name"] in x.get("interfaces", []) for x in comb["types"])
+            if not implemented:
+                for _ in range(rng.randint(0 if new_ifaces else 1, 2)):
+                    f = new_field(have | {x["name"] for x in fs})
+                    if f:
+                        fs.append(f)
+            if not fs and not new_ifaces:
+                return None
+            t["fields"] += fs
+            t["interfaces"] += new_ifaces
+            frag["interfaces"] = new_ifaces
+            frag["fields"] = copy.deepcopy(fs)
+        return frag
+
     n_ops = rng.randint(1, 6)
     # new types first decided (so other items may reference them), but placed anywhere in the document
     for _ in range(n_ops):
@@ -1273,88 +1360,52 @@ def gen_extension(rng, ir, explicit_schema_block):
                 items.append(("xdirective", d["name"], d["depr"]))
         else:
             t = rng.choice(comb["types"])
-            k = t["kind"]
-            frag = {"kind": k, "name": t["name"], "desc": None}
-            if k == "scalar":
-                if t["spec"] is None and not any(i[0] == "xtype" and i[1]["name"] == t["name"] for i in items):
-                    t["spec"] = rng.choice(["https://example.com/x", "u"])
-                    frag["spec"] = t["spec"]
-                else:
-                    continue
-            elif k == "enum":
-                have = {v["name"] for v in t["values"]}
-                vs = [{"name": v, "desc": adv(rng, 0.7), "depr": adv_depr(rng)} for v in g.member_names(["X", "NEW"], rng.randint(1, 2)) if v not in have]
-                if not vs:
-                    continue
-                t["values"] += vs
-                frag["values"] = copy.deepcopy(vs)
-            elif k == "input":
-                have = {a["name"] for a in t["fields"]}
-                fs = []
-                for a in g.member_names(["nx", "added"], rng.randint(1, 2)):
-                    if a in have:
-                        continue
-                    f = g.arg(a, [x for x in input_names() if x != t["name"]], allow_required=not t["oneof"])
-                    f.pop("py", None)
-                    if t["oneof"]:
-                        f["default"] = None
-                    elif f["type"][0] == "nn" and f["default"] is None:
-                        f["type"] = f["type"][1]  # keep old literals of this type valid
-                    fs.append(f)
-                if not fs:
-                    continue
-                t["fields"] += fs
-                frag["oneof"] = False
-                frag["fields"] = copy.deepcopy(fs)
-            elif k == "union":
-                objs = [x["name"] for x in comb["types"] if x["kind"] == "object" and x["name"] not in t["members"]]
-                if not objs:
-                    continue
-                ms = rng.sample(objs, rng.randint(1, min(2, len(objs))))
-                t["members"] += ms
-                frag["members"] = ms
+            frag = content_ext(t)
+            if frag:
+                items.append(("xtype", frag))
+    # --- several extensions of the same type in one document, each contributing another aspect
+    helper = []
+
+    def applied():
+        """An application of a repeatable helper directive that B itself defines."""
+        if not helper:
+            h = {
+                "name": g.fresh(["xtag", "xt"]), "desc": None,
+                "args": [{"name": "name", "desc": None, "type": ["named", "String"], "default": None, "depr": None}],
+                "repeatable": True,
+                "locations": ["SCALAR", "OBJECT", "INTERFACE", "UNION", "ENUM", "INPUT_OBJECT", "SCHEMA", "DIRECTIVE_DEFINITION"],
+                "depr": None,
+            }
+            helper.append(h)
+            comb["directives"].append(h)
+            items.append(("directive", copy.deepcopy(h)))
+        s = " @" + helper[0]["name"]
+        if rng.random() < 0.5:
+            s += "(name: " + q(rng.choice(["a", "time", "", "x y"])) + ")"
+        if rng.random() < 0.15:
+            s += " @" + helper[0]["name"]
+        return s
+
+    for _ in range(rng.choice([1, 2, 2, 3])):
+        cands = comb["types"]
+        if rng.random() < 0.4:
+            cands = [t for t in comb["types"] if t["kind"] == "scalar"] or cands
+        t = rng.choice(cands)
+        for _k in range(rng.choice([2, 3, 3])):
+            if rng.random() < 0.4:
+                frag = {"kind": t["kind"], "name": t["name"], "desc": None, "applied": applied()}
             else:
-                # object / interface: new fields and/or new interfaces (with the fields they require)
-                have = {f["name"] for f in t["fields"]}
-                fs = []
-                new_ifaces = []
-                if rng.random() < 0.4:
-                    ifs = [x["name"] for x in comb["types"] if x["kind"] == "interface" and x["name"] != t["name"] and x["name"] not in t["interfaces"]]
-                    # an interface may only implement interfaces that do not (transitively) implement it
-                    ifs = [i for i in ifs if t["name"] not in iface_closure(tmap, [i])]
-                    # implementers of an interface would have to follow: only extend objects, or interfaces nobody implements
-                    implemented = any(t["name"] in x.get("interfaces", []) for x in comb["types"])
-                    if ifs and not (k == "interface" and implemented):
-                        want = iface_closure(tmap, [rng.choice(ifs)])
-                        new_ifaces = [i for i in want if i not in t["interfaces"]]
-                        ok = True
-                        for i in new_ifaces:
-                            for f in tmap[i]["fields"]:
-                                if f["name"] in have:
-                                    ok = False  # an existing field may not satisfy the interface
-                                elif f["name"] not in {x["name"] for x in fs}:
-                                    fs.append(copy.deepcopy(f))
-                                else:
-                                    # two new interfaces with the same field: keep the later (more derived) one
-                                    fs = [x for x in fs if x["name"] != f["name"]] + [copy.deepcopy(f)]
-                        if not ok:
-                            new_ifaces, fs = [], []
-                        else:
-                            # a field required by several interfaces: take the most derived version
-                            pass
-                implemented = k == "interface" and any(t["name"] in x.get("interfaces", []) for x in comb["types"])
-                if not implemented:
-                    for _ in range(rng.randint(0 if new_ifaces else 1, 2)):
-                        f = new_field(have | {x["name"] for x in fs})
-                        if f:
-                            fs.append(f)
-                if not fs and not new_ifaces:
-                    continue
-                t["fields"] += fs
-                t["interfaces"] += new_ifaces
-                frag["interfaces"] = new_ifaces
-                frag["fields"] = copy.deepcopy(fs)
-            items.append(("xtype", frag))
+                frag = content_ext(t)
+                if frag and rng.random() < 0.3:
+                    frag["applied"] = applied()
+            if frag:
+                items.append(("xtype", frag))
+    if rng.random() < 0.35:
+        items.append(("xschema", {}, applied()))
+    base_dirs = [d["name"] for d in base["directives"]]
+    if base_dirs and rng.random() < 0.35:
+        for _k in range(rng.choice([1, 2])):
+            items.append(("xdirective", rng.choice(base_dirs), None, applied()))
     # document order: any order; the combined content follows document order, so recompute it
     rng.shuffle(items)
     comb = apply_items(base, items)
@@ -1378,21 +1429,22 @@ def apply_items(base, items):
             t = tmap[frag["name"]]
             k = t["kind"]
             if k == "scalar":
-                t["spec"] = frag["spec"]
+                if frag.get("spec") is not None:
+                    t["spec"] = frag["spec"]
             elif k == "enum":
-                t["values"] += copy.deepcopy(frag["values"])
+                t["values"] += copy.deepcopy(frag.get("values", []))
             elif k == "input":
-                t["fields"] += copy.deepcopy(frag["fields"])
+                t["fields"] += copy.deepcopy(frag.get("fields", []))
             elif k == "union":
-                t["members"] += frag["members"]
+                t["members"] += frag.get("members", [])
             else:
-                t["fields"] += copy.deepcopy(frag["fields"])
-                t["interfaces"] += frag["interfaces"]
+                t["fields"] += copy.deepcopy(frag.get("fields", []))
+                t["interfaces"] += frag.get("interfaces", [])
         elif it[0] == "xschema":
             comb.update(it[1])
         elif it[0] == "xdirective":
             for d in comb["directives"]:
-                if d["name"] == it[1] and d["depr"] is None:
+                if d["name"] == it[1] and d["depr"] is None and it[2] is not None:
                     d["depr"] = it[2]
     return comb
 
@@ -1405,9 +1457,11 @@ def items_to_sdl(items, rng):
         elif it[0] == "directive":
             out.append(sdl_directive(it[1], rng))
         elif it[0] == "xschema":
-            out.append("extend schema {\n" + "\n".join(f"  {op}: {n}" for op, n in it[1].items()) + "\n}")
+            ap = it[2] if len(it) > 2 else ""
+            ops = (" {\n" + "\n".join(f"  {op}: {n}" for op, n in it[1].items()) + "\n}") if it[1] else ""
+            out.append("extend schema" + ap + ops)
         elif it[0] == "xdirective":
-            out.append(f"extend directive @{it[1]}{sdl_depr(it[2], rng)}")
+            out.append(f"extend directive @{it[1]}{sdl_depr(it[2], rng)}{it[3] if len(it) > 3 else ''}")
         else:
             frag = dict(it[1])
             frag.setdefault("interfaces", [])
